@@ -842,9 +842,18 @@ static void builtin_alloca(void) {
   println("  mov %%rax, %d(%%rbp)", current_fn->alloca_bottom->offset);
 }
 
+// Text that the preprocessor made up (the result of #, ##, a builtin
+// or -D macro) carries the line of the place that made it; this is the
+// file of that place.
+static int loc_file_no(Token *tok) {
+  while (!strcmp(tok->file->name, "<built-in>") && tok->origin)
+    tok = tok->origin;
+  return tok->file->file_no;
+}
+
 // Generate code for a given node.
 static void gen_expr(Node *node) {
-  println("  .loc %d %d", node->tok->file->file_no, node->tok->line_no);
+  println("  .loc %d %d", loc_file_no(node->tok), node->tok->line_no);
 
   switch (node->kind) {
   case ND_NULL_EXPR:
@@ -1415,7 +1424,7 @@ static void gen_expr(Node *node) {
 }
 
 static void gen_stmt(Node *node) {
-  println("  .loc %d %d", node->tok->file->file_no, node->tok->line_no);
+  println("  .loc %d %d", loc_file_no(node->tok), node->tok->line_no);
 
   switch (node->kind) {
   case ND_IF: {
